@@ -228,3 +228,109 @@ def try_shape_ok(ctx) -> bool:
                 if isinstance(c, ast.Call) and isinstance(c.func, ast.Name) and c.func.id == "TryStatement" and [norm(a) for a in c.args[1:3]] == ["handler", "finalizer"]:
                     return True
     return False
+
+
+# ---- an opening delimiter is consumed before the search for the closing one starts -------------------------
+def _opener_of(conds, cur: Set[str], peek: Set[str]) -> Optional[str]:
+    """The characters the conditions establish at the cursor: `ch == "/" and self._peek() == "*"` -> "/*"
+    (also through `if ch != "/": break` earlier in the block and aliases of the two accessors)."""
+    from ..util import atoms
+
+    c1 = c2 = None
+    for t, pol0 in conds:
+        for a, pol in atoms(t, pol0):
+            if not (isinstance(a, ast.Compare) and len(a.ops) == 1 and isinstance(a.comparators[0], ast.Constant) and isinstance(a.comparators[0].value, str) and len(a.comparators[0].value) == 1):
+                continue
+            if not ((isinstance(a.ops[0], ast.Eq) and pol) or (isinstance(a.ops[0], ast.NotEq) and not pol)):
+                continue
+            l = norm(a.left)
+            if l in cur:
+                c1 = a.comparators[0].value
+            elif l in peek:
+                c2 = a.comparators[0].value
+    if c1 is None:
+        return None
+    return c1 + (c2 or "")
+
+
+def rule_delimiters_do_not_overlap(ctx, rep, rid: str) -> None:
+    """`/*/` is not a complete comment: the `*` of the opener must not serve as the `*` of the terminator.  Where a
+    scanner branch is entered on a known opening delimiter and then looks for the closing one (a loop, or
+    str.find from an offset), the opener has to be consumed, or skipped by the search offset, in full — unless no
+    suffix of what is left of it can begin the terminator."""
+    rep.rule(rid, "in the lexer, the search for a closing delimiter starts after the whole opening delimiter that the branch tested for (the cursor advances, or the offset of str.find, cover all its characters), unless no remaining suffix of the opener is a prefix of the terminator: otherwise `/*/` is taken for a complete comment and what follows it for code", floor=1)
+    lex = ctx.tree.mod("lexer")
+    n = 0
+    for f in ctx.tree.funcs:
+        if f.module is not lex or isinstance(f.node, ast.Lambda):
+            continue
+        from ..util import known_conditions
+
+        cur = {"self._current()"} | {a.targets[0].id for a in f.own_nodes() if isinstance(a, ast.Assign) and len(a.targets) == 1 and isinstance(a.targets[0], ast.Name) and (norm(a.value) == "self._current()" or norm(a.value).endswith("[self.pos]"))}
+        peek = {"self._peek()", "self._peek(1)"} | {a.targets[0].id for a in f.own_nodes() if isinstance(a, ast.Assign) and len(a.targets) == 1 and isinstance(a.targets[0], ast.Name) and norm(a.value) in ("self._peek()", "self._peek(1)")}
+        for br in f.own_nodes():
+            if not isinstance(br, ast.If) or not br.body:
+                continue
+            if not any(isinstance(x, ast.Compare) and norm(x.left) in (cur | peek) for x in ast.walk(br.test)):
+                continue
+            opener = _opener_of(known_conditions(br.body[0], f.node), cur, peek)
+            if opener is None:
+                continue
+            adv = 0
+            for s in br.body:
+                if isinstance(s, ast.Expr) and isinstance(s.value, ast.Call) and norm(s.value.func) == "self._advance":
+                    adv += 1
+                    continue
+                if isinstance(s, ast.AugAssign) and norm(s.target) == "self.pos" and isinstance(s.op, ast.Add) and isinstance(s.value, ast.Constant) and isinstance(s.value.value, int):
+                    adv += s.value.value
+                    continue
+                # the first statement that searches
+                term = None
+                extra = 0
+                where = s
+                if isinstance(s, ast.While):
+                    term = _terminator(s)
+                else:
+                    for c in ast.walk(s):
+                        if isinstance(c, ast.Call) and isinstance(c.func, ast.Attribute) and c.func.attr in ("find", "index") and c.args and isinstance(c.args[0], ast.Constant) and isinstance(c.args[0].value, str):
+                            term = c.args[0].value
+                            where = c
+                            if len(c.args) > 1:
+                                st = norm(c.args[1]).replace(" ", "")
+                                if st == "self.pos":
+                                    extra = 0
+                                elif st.startswith("self.pos+") and st[9:].isdigit():
+                                    extra = int(st[9:])
+                                else:
+                                    term = None
+                            else:
+                                term = None
+                if term is None:
+                    break
+                n += 1
+                consumed = adv + extra
+                key = f"{f.qual}:{opener!r}..{term!r}"
+                overlap = [i for i in range(consumed, len(opener)) if term.startswith(opener[i:])]
+                if overlap:
+                    rep.bad(rid, key, f"{f.qual} enters this branch on the opening delimiter {opener!r} and starts looking for the closing {term!r} after only {consumed} of its {len(opener)} characters: {opener[consumed:]!r} can serve as the beginning of the terminator, so {(opener + term[len(opener) - overlap[0]:])!r} is taken for a complete token and the text after it for code", f"{f.module.rel}:{getattr(where, 'lineno', br.lineno)}")
+                else:
+                    rep.ok(rid, key, {"opener_characters_passed": consumed})
+                break
+    if n < 1:
+        raise AnalysisError(f"{rid}: no delimiter search after a tested opener found in the lexer")
+
+
+def _terminator(loop: ast.While) -> Optional[str]:
+    """The terminator a scanning loop looks for: from its test (`!= "\\n"`) or from the guard of its break
+    (`self._current() == "*" and self._peek() == "/"`)."""
+    for c in ast.walk(loop.test):
+        if isinstance(c, ast.Compare) and len(c.ops) == 1 and isinstance(c.ops[0], ast.NotEq) and isinstance(c.comparators[0], ast.Constant) and isinstance(c.comparators[0].value, str) and norm(c.left) in ("self._current()",):
+            return c.comparators[0].value
+    for b in ast.walk(loop):
+        if isinstance(b, ast.Break):
+            for tst, pol in guards_of(b, loop):
+                if pol:
+                    o = _opener_of([(tst, True)], {"self._current()"}, {"self._peek()", "self._peek(1)"})
+                    if o:
+                        return o
+    return None
